@@ -8,9 +8,8 @@ MODELS_MORE = ["userset", "inter_excl", "shared_tuples", "h6", "condition_userse
                "rec_intersection", "userset_ttu_mix", "ttu_excl"]
 MODELS_ALL = MODELS_QUICK + MODELS_MORE
 
-# jobs that set this parameter skip the one obligation of the recorded finding "max results 0 swallows condition
-# errors" (the strict job reports it); everything else is still checked on every path
-_KNOWN = "known_swallowed_condition_errors"
+# The harness still understands the tolerance parameters known_swallowed_condition_errors / known_limit_race and
+# subjects=nowild, which were used while findings H24, H7 and H25 were open; since their repair every job is strict.
 # requests that read many tuples (every tuple read is a fork): split the request family over jobs
 _HEAVY_A = {"ttu": 2, "ttu_excl": 2, "userset": 2, "rec_intersection": 2, "userset_ttu_mix": 2}
 
@@ -31,38 +30,46 @@ def c05(tier, seed):
     budget = 6000 if q else 60000
     for m in (MODELS_QUICK if q else MODELS_ALL):
         # A: every valid tuple (no leftovers), one subject per type, unbounded answer, classic reverse expansion
-        jobs += _lo(m, parts=_HEAVY_A.get(m, 1), maxcands=12 if q else 14, invalid=0, subjects="min", max=0, max_paths=budget, **{_KNOWN: 1})
+        jobs += _lo(m, parts=_HEAVY_A.get(m, 1), maxcands=12 if q else 14, invalid=0, subjects="min", max=0, max_paths=budget)
         # B: invalid leftovers, all subjects (objects, usersets, typed wildcards), weighted-graph reverse expansion
-        #    (feature flag enable-list-objects-optimizations), result limit 1..2 chosen by the solver
-        jobs += _lo(m, maxcands=10 if q else 12, seed=seed % 7, lo_opt=1, max=-1, max_paths=budget)
+        #    (feature flag enable-list-objects-optimizations), result limit 2 on two objects per type: exact count
+        jobs += _lo(m, maxcands=10 if q else 12, seed=seed % 7, lo_opt=1, max=2, max_paths=budget)
         if not q:
-            jobs += _lo(m, maxcands=12, seed=(seed + 1) % 7, lo_opt=1, max=0, max_paths=budget, **{_KNOWN: 1})
-            jobs += _lo(m, maxcands=12, seed=(seed + 2) % 7, lo_opt=0, max=-1, max_paths=budget)
-            jobs += _lo(m, maxcands=10, seed=(seed + 3) % 7, lo_opt=0, max=0, breadth=1, max_paths=budget, **{_KNOWN: 1})
-            jobs += _lo(m, maxcands=10, seed=(seed + 4) % 7, lo_opt=1, max=-1, breadth=1, max_paths=budget)
+            jobs += _lo(m, maxcands=12, seed=(seed + 1) % 7, lo_opt=1, max=0, max_paths=budget)
+            jobs += _lo(m, maxcands=12, seed=(seed + 2) % 7, lo_opt=0, max=2, max_paths=budget)
+            # limit 1: a second candidate can follow the limit, only soundness / distinctness / upper bound
+            jobs += _lo(m, maxcands=12, seed=(seed + 3) % 7, lo_opt=seed % 2, max=1, max_paths=budget)
+            jobs += _lo(m, maxcands=10, seed=(seed + 3) % 7, lo_opt=0, max=0, breadth=1, max_paths=budget)
+            jobs += _lo(m, maxcands=10, seed=(seed + 4) % 7, lo_opt=1, max=2, breadth=1, max_paths=budget)
             # contextual tuples (C04 coverage of the ListObjects path); the weighted variant without typed-wildcard
             # subjects: with them it hits the recorded finding "empty user filter matches every contextual tuple"
-            jobs += _lo(m, maxcands=10, seed=(seed + 5) % 7, lo_opt=0, max=0, ctx=3, max_paths=budget, **{_KNOWN: 1})
-            jobs += _lo(m, maxcands=10, seed=(seed + 6) % 7, lo_opt=1, max=-1, ctx=3, subjects="nowild", max_paths=budget)
+            jobs += _lo(m, maxcands=10, seed=(seed + 5) % 7, lo_opt=0, max=0, ctx=3, max_paths=budget)
+            jobs += _lo(m, maxcands=10, seed=(seed + 6) % 7, lo_opt=1, max=2, ctx=3, max_paths=budget)
     if q:
-        # C: contextual tuples
+        # limit 1 (upper bound only, see above) and contextual tuples on a few models
+        jobs += _lo("exclusion", maxcands=10, seed=(seed + 2) % 7, lo_opt=0, max=1, max_paths=budget)
+        jobs += _lo("ttu", maxcands=10, seed=(seed + 2) % 7, lo_opt=1, max=1, max_paths=budget)
         jobs += _lo("wildcard", maxcands=10, seed=(seed + 1) % 7, lo_opt=0, max=0, ctx=3, max_paths=budget)
-        jobs += _lo("ttu", maxcands=10, seed=(seed + 1) % 7, lo_opt=1, max=-1, ctx=3, subjects="nowild", max_paths=budget)
-        jobs += _lo("exclusion", maxcands=10, seed=(seed + 1) % 7, lo_opt=1, max=0, ctx=3, subjects="nowild", max_paths=budget)
-    # strict job for the finding "weighted reverse expansion + typed-wildcard user: the empty user filter matches every
-    # contextual tuple of the relation" (seed pinned: the contextual candidates must be tuples of a [user]-only relation)
-    jobs += _lo("exclusion", maxcands=10, seed=1, lo_opt=1, max=0, ctx=3, max_paths=4000)
-    # D: the first selects with several ready cases take an arbitrary case (the random choice in
-    #    TrySendThroughChannel, hypothesis H7), three objects per type, limit 1 and 2
-    for mx in ([1] if q else [1, 2]):
+        jobs += _lo("ttu", maxcands=10, seed=(seed + 1) % 7, lo_opt=1, max=2, ctx=3, max_paths=budget)
+        jobs += _lo("exclusion", maxcands=10, seed=(seed + 1) % 7, lo_opt=1, max=0, ctx=3, max_paths=budget)
+    # D: the first selects with several ready cases take an arbitrary case (the random choice of a real select),
+    #    three objects per type, unbounded answer and limit 3: completeness / exact count on all those choices
+    for mx in ([0] if q else [0, 3]):
         for m in (["exclusion"] if q else ["exclusion", "inter_excl", "intersection"]):
             jobs += _lo(m, nobj=3, maxcands=15, invalid=0, subjects="min", max=mx, sched=6 if q else 10, max_paths=budget)
-    # K05: harness-implemented datastore and check resolver deliver the later candidates exactly while the first Check
-    # is answered (the situation of hypothesis H7); forked select choices; exact count under the limit
+    # K05a: harness-implemented datastore and check resolver deliver the later candidates exactly while the first
+    #       Check is answered; forked select choices; in the schedules the engine explores the count is exact
     for n, mx in ([(2, 1), (3, 2)] if q else [(2, 1), (3, 1), (3, 2), (4, 2)]):
         jobs.append(J(CMDS, "VerifK05LimitRace", unwind=64, timeout_ms=60000, n=n, max=mx, sched=8))
-    # strict job for the finding "max results 0 swallows condition-evaluation errors"
+    # ---- the inputs on which findings H24, H25 and H7 were first seen (kept as regression jobs) ------------------
+    # "max results 0 swallows condition-evaluation errors"
     jobs += _lo("condition", maxcands=6, invalid=0, subjects="min", max=0, max_paths=4000)
+    # "weighted reverse expansion + typed-wildcard user: the empty user filter matches every contextual tuple of the
+    # relation" (seed pinned: the contextual candidates must be tuples of a [user]-only relation)
+    jobs += _lo("exclusion", maxcands=10, seed=1, lo_opt=1, max=0, ctx=3, max_paths=4000)
+    # H7 "a counted object is dropped when the limit cancels the request": concrete two-hop store, limit 1, canonical
+    # schedule of the engine; the native replay is a stress run (40 documents, limit 5) that fails on a short answer
+    jobs.append(J(CMDS, "VerifK05TwoHop", unwind=64, timeout_ms=60000, max=1))
     if not q:
         for j in jobs:
             j["job_timeout_s"] = 3000
@@ -72,8 +79,9 @@ def c05(tier, seed):
 SPEC = {
     "C05": {
         "jobs": c05,
-        "level_text": "bounded symbolic execution of the real classic ListObjects engine (NewListObjectsQuery with its feature-flag client, Execute with request validation, evaluate: request storage wrapper, ReverseExpandQuery in both variants - reverse_expand.go and, under the optimisation flag, reverse_expand_weighted.go -, consumer loop, bounded pool, the real CheckCommand + graph.LocalChecker for candidates that need further evaluation, trySendObject) over a symbolic store: every candidate tuple's presence is a solver variable, every (type, relation, subject) over the universe is requested, the planner of the embedded Check picks an arbitrary strategy per plan key, and on every path the solver shows: every returned object is an object of the requested type that the three-valued least-fixpoint reference semantics of Check permits, no object is returned twice, with max results 0 every permitted object is returned, with max results m in {1,2} exactly min(m, number of permitted objects) objects are returned, and an error occurs only if the store or the contextual tuples hold a tuple whose condition cannot be evaluated.",
-        "level_note": "bounds: 8 (quick) / 17 models, 2 objects per type (3 in the schedule jobs), all valid candidates (<= 12/14) with one subject per type or <= 10/12 candidates with invalid leftovers and all subjects (objects, usersets, typed wildcards); up to 3 candidates as contextual tuples; breadth limit 1 (thorough). The streaming pipeline engine is OUTSIDE (switched off: WithListObjectsPipelineEnabled(false), pipeline feature flag absent). Deadline switched off (a deadline truncates the answer by design; the abstract clock may jump past any deadline). Schedules: one canonical fair interleaving per path; the jobs with `sched` additionally fork the first 6/10 selects that have several ready cases (the random choice of select, e.g. ctx.Done vs send in TrySendThroughChannel). Preemption at arbitrary instructions is not explored, so hypothesis H7 (a Check goroutine counts itself in objectsFound, is preempted, the consumer cancels, the select drops the object) is neither confirmed nor excluded: none of the explored schedules returns fewer than min(m, permitted). Completeness with max results 0 is claimed for stores in which every condition can be evaluated (an evaluation error cancels the expansion; the call then has to fail); all jobs but the strict one skip the obligation of the recorded finding 'max results 0 swallows condition-evaluation errors'. The contextual-tuple jobs of the weighted variant leave out typed-wildcard subjects (recorded finding: for a wildcard user the weighted reverse expansion reads with an empty user filter, which the contextual-tuple reader takes as 'every user'); one strict job demonstrates it. Model h6 (thorough) surfaces H6 of the embedded Check engine (default strategy). Trusted: engine semantics and library models listed in evidence, the reference semantics (harness/internal/vtsem), z3.",
+        "no_witness": ["VerifK05TwoHop"],  # natively a stress run (40 documents, many repetitions), not a replay of the model
+        "level_text": "bounded symbolic execution of the real classic ListObjects engine (NewListObjectsQuery with its feature-flag client, Execute with request validation, evaluate: request storage wrapper, ReverseExpandQuery in both variants - reverse_expand.go and, under the optimisation flag, reverse_expand_weighted.go -, consumer loop, bounded pool, the real CheckCommand + graph.LocalChecker for candidates that need further evaluation, trySendObject) over a symbolic store: every candidate tuple's presence is a solver variable, every (type, relation, subject) over the universe is requested, the planner of the embedded Check picks an arbitrary strategy per plan key, and on every path the solver shows: every returned object is an object of the requested type that the three-valued least-fixpoint reference semantics of Check permits, no object is returned twice, with max results 0 every permitted object is returned, with a result limit never more than the limit and - limit 2 on two objects per type, limit 3 on three - exactly min(limit, number of permitted objects) objects are returned, and an error occurs only if the store or the contextual tuples hold a tuple whose condition cannot be evaluated.",
+        "level_note": "bounds: 8 (quick) / 17 models, 2 objects per type (3 in the schedule jobs), all valid candidates (<= 12/14) with one subject per type or <= 10/12 candidates with invalid leftovers and all subjects (objects, usersets, typed wildcards); up to 3 candidates as contextual tuples; breadth limit 1 (thorough). The streaming pipeline engine is OUTSIDE (switched off: WithListObjectsPipelineEnabled(false), pipeline feature flag absent). Deadline switched off (a deadline truncates the answer by design; the abstract clock may jump past any deadline). Schedules: one canonical fair interleaving per path (cooperative: a goroutine runs until it blocks or reaches a select); the jobs with `sched` additionally fork the first 6/10 selects that have several ready cases. Findings H7 (a counted object dropped when the limit cancels the request), H24 (max results 0 swallowed condition errors) and H25 (empty user filter matched every contextual tuple) were found by these jobs and are repaired in /repo; the jobs that demonstrated them stay in the list and every job now carries the full obligations (exact count also with limit 1, errors reported with max results 0, typed-wildcard subjects with contextual tuples). Model h6 (thorough) surfaces H6 of the embedded Check engine (default strategy), recorded as known finding H6b. Trusted: engine semantics and library models listed in evidence, the reference semantics (harness/internal/vtsem), z3.",
         "assumptions": [
             "store content = arbitrary subset of the candidate universe (2-3 objects per type, every tuple the model's type restrictions allow plus invalid leftovers), restricted to `maxcands` candidates chosen by seed; (object, relation, user) is a key",
             "CEL evaluation replaced by one symbolic outcome (met / not met / missing parameter) per condition name; replay runs the real CEL evaluator with a request context producing that outcome",
@@ -82,6 +90,6 @@ SPEC = {
             "ListObjects deadline = 0 (disabled); dispatch and datastore throttling disabled (defaults); iterator and check caches off (defaults)",
             "tracing/metrics/logging are no-ops; timers never fire",
         ],
-        "outside": ["the streaming pipeline engine (internal/listobjects/pipeline) end to end", "StreamedListObjects (same evaluate, unbounded limit, gRPC stream)", "deadline-truncated answers", "preemption-dependent schedules (hypothesis H7)", "universes beyond the bounds", "real CEL outcomes"],
+        "outside": ["the streaming pipeline engine (internal/listobjects/pipeline) end to end", "StreamedListObjects (same evaluate, unbounded limit, gRPC stream)", "deadline-truncated answers", "schedules with preemption at arbitrary instructions or true parallelism (beyond the cooperative interleaving and the forked select choices)", "universes beyond the bounds", "real CEL outcomes"],
     },
 }
